@@ -1,0 +1,218 @@
+//! Observation hooks for external verification harnesses.
+//!
+//! Only compiled with `--features verif`. Nothing here changes product behaviour unless a
+//! [`Monitor`] has been installed on the current thread with [`install`]; without one, every hook
+//! is a no-op and the surrounding code runs exactly as in a normal build.
+
+use std::cell::RefCell;
+use std::collections::VecDeque;
+
+pub use crate::term::Key;
+
+/// Payload of the typed unwind which replaces `std::process::exit(code)` while a monitor is armed.
+pub struct VerifExit(pub i32);
+/// Payload of the typed unwind raised when the run-loop iteration budget is exhausted.
+pub struct VerifFuel;
+/// Payload of the typed unwind raised when the line editor asks for a key and none is queued.
+pub struct VerifKeys;
+
+/// Read-only view of the machine.
+pub struct StateView<'a> {
+    pub reg: &'a [u16; 8],
+    pub pc: u16,
+    /// Condition code as 3 bits `nzp` (0 = none set).
+    pub cc: u8,
+    pub orig: u16,
+    pub mem: &'a [u16; 0x10000],
+}
+
+/// What is visible whenever the debugger is about to read a command.
+pub struct PromptView<'a> {
+    pub state: StateView<'a>,
+    /// `(address, is_predefined)` in list order.
+    pub breakpoints: Vec<(u16, bool)>,
+    pub ticks: u64,
+    pub fetches: u64,
+    /// Number of command lines consumed so far (including rejected ones).
+    pub commands_read: usize,
+    pub out_normal_len: usize,
+    pub out_debugger_len: usize,
+    pub input_taken: u64,
+}
+
+/// State of the line editor after a key has been handled.
+pub struct EditorView<'a> {
+    pub line: &'a str,
+    pub cursor: usize,
+    pub history_index: usize,
+    pub history: &'a [String],
+    pub submitted: bool,
+}
+
+#[derive(Default)]
+pub struct Monitor {
+    /// Turn library-internal `process::exit` calls into [`VerifExit`] unwinds.
+    pub armed: bool,
+    /// Remaining run-loop iterations; `None` = unlimited.
+    pub fuel: Option<u64>,
+    pub ticks: u64,
+    pub fetches: u64,
+    pub keep_trace: bool,
+    /// `(pc, instruction word)` of every fetch, if `keep_trace`.
+    pub trace: Vec<(u16, u16)>,
+    /// Bytes served to GETC/IN instead of stdin; `None` = real stdin.
+    pub input: Option<VecDeque<u8>>,
+    pub input_taken: u64,
+    pub out_normal: String,
+    pub out_debugger: String,
+    pub prompts: u64,
+    pub commands: Vec<String>,
+    pub on_prompt: Option<Box<dyn FnMut(&PromptView)>>,
+    /// Keys served to the interactive line editor; `None` = real terminal.
+    pub keys: Option<VecDeque<Key>>,
+    pub on_key: Option<Box<dyn FnMut(&EditorView)>>,
+}
+
+thread_local! {
+    static MONITOR: RefCell<Option<Monitor>> = const { RefCell::new(None) };
+}
+
+/// Install a monitor on this thread, replacing any previous one.
+pub fn install(monitor: Monitor) {
+    MONITOR.with(|slot| *slot.borrow_mut() = Some(monitor));
+}
+
+/// Remove and return this thread's monitor.
+pub fn take() -> Option<Monitor> {
+    MONITOR.with(|slot| slot.borrow_mut().take())
+}
+
+/// Access this thread's monitor, if any.
+pub fn with<R>(f: impl FnOnce(&mut Monitor) -> R) -> Option<R> {
+    MONITOR.with(|slot| slot.borrow_mut().as_mut().map(f))
+}
+
+pub(crate) fn exit(code: i32) {
+    if with(|m| m.armed) == Some(true) {
+        std::panic::resume_unwind(Box::new(VerifExit(code)));
+    }
+}
+
+pub(crate) fn tick() {
+    let exhausted = with(|m| {
+        m.ticks += 1;
+        match &mut m.fuel {
+            Some(0) => true,
+            Some(fuel) => {
+                *fuel -= 1;
+                false
+            }
+            None => false,
+        }
+    });
+    if exhausted == Some(true) {
+        std::panic::resume_unwind(Box::new(VerifFuel));
+    }
+}
+
+pub(crate) fn fetch(pc: u16, instr: u16) {
+    with(|m| {
+        m.fetches += 1;
+        if m.keep_trace {
+            m.trace.push((pc, instr));
+        }
+    });
+}
+
+pub(crate) fn out_normal(string: &str) {
+    with(|m| m.out_normal.push_str(string));
+}
+
+pub(crate) fn out_debugger(string: &str) {
+    with(|m| m.out_debugger.push_str(string));
+}
+
+/// `None`: no monitor input queue, use the real stdin.
+pub(crate) fn input() -> Option<u8> {
+    let next = with(|m| {
+        let queue = m.input.as_mut()?;
+        let byte = queue.pop_front();
+        if byte.is_some() {
+            m.input_taken += 1;
+        }
+        Some(byte)
+    })??;
+    match next {
+        Some(byte) => Some(byte),
+        None => {
+            // Mirrors the end-of-input exit of `read_byte_stdin`
+            exit(1);
+            std::process::exit(1);
+        }
+    }
+}
+
+pub(crate) fn command(line: &str) {
+    with(|m| m.commands.push(line.to_string()));
+}
+
+pub(crate) fn prompt(state: StateView, breakpoints: &crate::debugger::Breakpoints) {
+    let Some(Some((mut callback, view))) = with(|m| {
+        m.prompts += 1;
+        let callback = m.on_prompt.take()?;
+        let view = PromptView {
+            state,
+            breakpoints: breakpoints
+                .iter()
+                .map(|b| (b.address, b.is_predefined))
+                .collect(),
+            ticks: m.ticks,
+            fetches: m.fetches,
+            commands_read: m.commands.len(),
+            out_normal_len: m.out_normal.len(),
+            out_debugger_len: m.out_debugger.len(),
+            input_taken: m.input_taken,
+        };
+        Some((callback, view))
+    }) else {
+        return;
+    };
+    // Monitor is not borrowed while the callback runs
+    callback(&view);
+    with(|m| m.on_prompt = Some(callback));
+}
+
+/// `None`: no monitor key queue, use the real terminal.
+pub(crate) fn next_key() -> Option<Key> {
+    let next = with(|m| Some(m.keys.as_mut()?.pop_front()))??;
+    match next {
+        Some(key) => Some(key),
+        None => std::panic::resume_unwind(Box::new(VerifKeys)),
+    }
+}
+
+pub(crate) fn key_handled(view: EditorView) {
+    let Some(Some(mut callback)) = with(|m| m.on_key.take()) else {
+        return;
+    };
+    callback(&view);
+    with(|m| m.on_key = Some(callback));
+}
+
+/// Parse one (non-empty, trimmed) command line. `Ok` carries the `Debug` rendering of the command.
+pub fn parse_command(line: &str) -> Result<String, String> {
+    crate::debugger::verif_parse_command(line)
+}
+
+/// The interactive line editor, without a terminal or history file.
+pub struct Editor(crate::debugger::VerifTerminal);
+
+impl Editor {
+    pub fn new(history: Vec<String>) -> Self {
+        Self(crate::debugger::VerifTerminal::verif_new(history))
+    }
+    /// Next command, reading a whole line from the monitor's key queue when needed.
+    pub fn read(&mut self) -> Option<String> {
+        self.0.verif_read()
+    }
+}
